@@ -1339,7 +1339,8 @@ class Interp:
         ordinal = frame.loop_ordinal
         spec = frame.contract.loops.get(ordinal) if frame.contract else None
         it = self.eval(st.iter, frame)
-        if isinstance(it, (list, tuple, bytes)) and spec is None:
+        if isinstance(it, (list, tuple, bytes)) and (spec is None or len(it) <= 64):
+            # a concrete iterable is unrolled (a loop contract written for an unbounded loop does not apply any more)
             for x in it:
                 self.assign(st.target, x, frame)
                 try:
